@@ -34,7 +34,7 @@ def cases(tier):
     q = tier == 'quick'
     for d in ([1, 2, 3] if q else [1, 2, 3, 4]):
         for dims in itertools.product([2, 3], repeat=d):
-            if d == 4 and np.prod(dims) > 24:
+            if d == 4 and np.prod(dims) > 36:
                 continue
             for ro in ((1, 2) if d > 1 else (1,)):
                 for fam in ('real', 'complex', 'markov'):
